@@ -5,7 +5,7 @@ package main
 //   rm  <state> <hex> <k> <fin>                      wsutil.ReadMessage
 //   rdd <state> <want T|B|D> <hex> <k> <fin> <seed>  wsutil.ReadData / Read{Client,Server}{Data,Text,Binary}
 //   rdr <state> <cfg> <hex> <k> <fin> <op>...        wsutil.Reader script
-//        cfg: comma list of  skip | utf8 | max:N | ext | inter (collecting OnIntermediate) | nr (via NextReader)
+//        cfg: comma list of  skip | utf8 | max:N | ext | inter (collecting OnIntermediate) | interlazy | interone | nr (via NextReader)
 //        ops: nf | r:<bufsize> | ra | d | st
 // Observed formats are produced by the functions below; the Lean driver prints the same.
 
@@ -126,6 +126,20 @@ func init() {
 						return err
 					}
 					collected = append(collected, wsutil.Message{OpCode: h.OpCode, Payload: b})
+					return nil
+				}
+			case c == "interlazy":
+				// a handler that looks at the header only and leaves the payload unread
+				rd.OnIntermediate = func(h ws.Header, r io.Reader) error {
+					collected = append(collected, wsutil.Message{OpCode: h.OpCode})
+					return nil
+				}
+			case c == "interone":
+				// ... or reads a single byte of it
+				rd.OnIntermediate = func(h ws.Header, r io.Reader) error {
+					var b [1]byte
+					n, _ := r.Read(b[:])
+					collected = append(collected, wsutil.Message{OpCode: h.OpCode, Payload: append([]byte(nil), b[:n]...)})
 					return nil
 				}
 			case c == "nr":
@@ -327,6 +341,49 @@ func genC04(tier string, r *rng) {
 		}
 	}
 	genPartialDiscard(tier, r)
+	// empty fragments in every position (first, middle, last, all), alone and with a control frame between
+	for _, server := range []bool{true, false} {
+		st := 2
+		if server {
+			st = 1
+		}
+		for mask := 0; mask < 8; mask++ {
+			for _, withCtl := range []bool{false, true} {
+				pl := func(bit int) []byte {
+					if mask&(1<<uint(bit)) != 0 {
+						return nil
+					}
+					return r.bytes(1 + r.intn(4))
+				}
+				fs := []gframe{{false, 0, ws.OpBinary, pl(0)}}
+				if withCtl {
+					fs = append(fs, gframe{true, 0, ws.OpPing, r.bytes(2)})
+				}
+				fs = append(fs, gframe{false, 0, ws.OpContinuation, pl(1)}, gframe{true, 0, ws.OpContinuation, pl(2)}, gframe{true, 0, ws.OpText, []byte("next")})
+				enc := encodeStream(fs, server, r)
+				k := []int{0, 1, 2}[mask%3]
+				run(fmt.Sprintf("rm %d %s %d E", st, hx(enc), k))
+				run(fmt.Sprintf("rdd %d D %s %d E %d", st, hx(enc), k, mask))
+				run(fmt.Sprintf("rdr %d inter %s %d E nf ra st nf ra st", st, hx(enc), k))
+				run(fmt.Sprintf("rdr %d inter %s %d E nf r:1 d st nf ra st", st, hx(enc), k))
+			}
+		}
+	}
+	// OnIntermediate handlers that do not consume the control payload: the reader must skip the rest itself
+	for i := 0; i < 40; i++ {
+		server := r.bool()
+		st := 2
+		if server {
+			st = 1
+		}
+		fs := []gframe{{false, 0, ws.OpBinary, r.bytes(1 + r.intn(5))}, {true, 0, ws.OpPing, r.bytes([]int{0, 1, 2, 9, 125}[r.intn(5)])},
+			{false, 0, ws.OpContinuation, r.bytes(r.intn(4))}, {true, 0, ws.OpPong, r.bytes(1 + r.intn(30))}, {true, 0, ws.OpContinuation, r.bytes(3)},
+			{true, 0, ws.OpText, []byte("next")}}
+		enc := encodeStream(fs, server, r)
+		for _, cfg := range []string{"interlazy", "interone", "utf8,interlazy"} {
+			run(fmt.Sprintf("rdr %d %s %s %d E nf ra st nf ra st", st, cfg, hx(enc), []int{0, 1, 3}[i%3]))
+		}
+	}
 	// NextReader on single messages
 	for i := 0; i < 40; i++ {
 		server := r.bool()
